@@ -1,0 +1,42 @@
+// Copyright The gittuf Authors
+// SPDX-License-Identifier: Apache-2.0
+
+//go:build verif
+
+package rsl
+
+// This file is only compiled with the `verif` build tag. It lets an external
+// deterministic-simulation harness give every simulated gittuf process its own
+// copy of the package-level entry/parent cache, and drop it to model a process
+// restart. It changes nothing in regular builds.
+
+// VerifCache is an opaque handle to one process-wide cache instance.
+type VerifCache struct {
+	c *rslCache
+}
+
+// VerifNewCache returns a fresh, empty cache.
+func VerifNewCache() *VerifCache {
+	return &VerifCache{c: &rslCache{
+		entryCache:  map[string]Entry{},
+		parentCache: map[string]string{},
+	}}
+}
+
+// VerifSwapCache installs the provided cache as the package-level cache and
+// returns the one that was installed before.
+func VerifSwapCache(n *VerifCache) *VerifCache {
+	old := &VerifCache{c: cache}
+	cache = n.c
+	return old
+}
+
+// VerifCacheSize reports the number of memoized entries and parent links of the
+// currently installed cache.
+func VerifCacheSize() (int, int) {
+	cache.entryCacheMutex.RLock()
+	defer cache.entryCacheMutex.RUnlock()
+	cache.parentCacheMutex.RLock()
+	defer cache.parentCacheMutex.RUnlock()
+	return len(cache.entryCache), len(cache.parentCache)
+}
